@@ -1,12 +1,14 @@
 package gabikeys
 
 import (
+	"encoding/base64"
 	"os"
 	"strconv"
 	"path/filepath"
 	"syscall"
 
 	"github.com/privacybydesign/gabi/big"
+	"github.com/privacybydesign/gabi/signed"
 )
 
 func init() {
@@ -221,6 +223,21 @@ func vpxPrivKeyXML(missing int) string {
 			body += e
 		}
 	}
+	// 5: with the revocation signing key of a freshly generated pair, 6: with a garbled one
+	if missing == 5 {
+		k, err := signed.GenerateKey()
+		if err != nil {
+			panic(err)
+		}
+		bts, err := signed.MarshalPrivateKey(k)
+		if err != nil {
+			panic(err)
+		}
+		body += "<ECDSA>" + base64.StdEncoding.EncodeToString(bts) + "</ECDSA>"
+	}
+	if missing == 6 {
+		body += "<ECDSA>!!garbage</ECDSA>"
+	}
 	return XMLHeader + `<IssuerPrivateKey xmlns="http://www.zurich.ibm.com/security/idemix"><Counter>0</Counter><ExpiryDate>1700000000</ExpiryDate><Elements>` + body + `</Elements></IssuerPrivateKey>`
 }
 
@@ -231,10 +248,15 @@ func vpxPrivKeyXML(missing int) string {
 // documents are read.
 func vpC18_O5() {
 	if vpBool("privateKey") {
-		missing := vpChoose("missing", 5)
+		missing := vpChoose("missing", 7)
 		demo := vpBool("demo")
 		sk, err := NewPrivateKeyFromXML(vpxPrivKeyXML(missing), demo)
-		if missing == 0 {
+		if missing == 5 {
+			// derived fields: a key with revocation support has its signing key after reading, in demo mode too
+			vpAssert("a private key document with a revocation key is read with its signing key", err == nil && sk != nil && sk.RevocationSupported() && sk.ECDSA != nil)
+		} else if missing == 6 {
+			vpAssert("a private key document with a garbled revocation key is refused", err != nil && sk == nil)
+		} else if missing == 0 {
 			vpAssert("a complete private key document is read", err == nil && sk != nil && sk.N != nil && sk.N.Cmp(big.NewInt(23*47)) == 0)
 		} else {
 			vpAssert("a private key document with a missing prime is refused", err != nil && sk == nil)
